@@ -10,6 +10,7 @@ package main
 
 import (
 	"fmt"
+	"os"
 	"runtime"
 
 	"github.com/gocql/gocql"
@@ -49,8 +50,9 @@ func (h *harness) reportPanic(idx int, entry string, p c04lib.Panic, input inter
 }
 
 // sizeTooBig walks a value the way Unmarshal does, up to the first thing Unmarshal would reject, and reports
-// whether a list / set / map size above 2^16 would be handed to reflect.MakeSlice / MakeMapWithSize (which
-// allocate before any element is looked at): such inputs are not run in-process.
+// whether a list / set / map size above 2^16 would be reached.  Since the fixes list-length-negative and
+// alloc-map-count such a size is rejected before anything is allocated; this walker is only used when the
+// allocation sweep of Unmarshal found otherwise (then such inputs are not run in-process).
 func sizeTooBig(proto int, t *c04lib.SType, data []byte, isNil bool) bool {
 	const limit = 1 << 16
 	size := func(d []byte) (int, []byte, bool) {
@@ -98,11 +100,8 @@ func sizeTooBig(proto int, t *c04lib.SType, data []byte, isNil bool) bool {
 		if !ok || n < 0 {
 			return false
 		}
-		if n > limit && t.Kind == c04lib.KMap {
-			return true // unmarshalMap still sizes the map by its count (lists are bounded by the bytes that remain)
-		}
 		if n > limit {
-			return false // rejected by unmarshalList before anything is allocated
+			return true
 		}
 		for i := 0; i < n; i++ {
 			for j := 0; j < len(t.Elems); j++ {
@@ -315,6 +314,9 @@ func measureAlloc(f func()) uint64 {
 }
 
 func main() {
+	if spec := os.Getenv("C05_CHILD"); spec != "" {
+		childMain(spec) // connection-level scenario in a process of its own (conn.go); does not return
+	}
 	o := hlib.Init("C05")
 	r := o.Rng
 	g := &c04lib.Gen{R: r}
@@ -357,7 +359,7 @@ func main() {
 		}
 		if !safe {
 			o.Extra["sweep_not_run"] = "an allocation out of proportion was found at a site other than the known ones; the dense sweep (with 2^31-1 in every count field) was not run"
-			o.Finish("From GocqlV Require Import Lib.Base C04.Model C04.Spec C04.Corr C05.Model C05.Corr.", "C05.Corr.case", "C05.Corr.run")
+			o.Finish("From GocqlV Require Import Lib.Base C04.Model C04.Spec C04.Corr C05.Model C05.Conn C05.Corr.", "C05.Corr.case", "C05.Corr.run")
 			return
 		}
 	}
@@ -482,10 +484,57 @@ func main() {
 	}
 
 	// ---- Unmarshal: (type, bytes) pairs ------------------------------------------------------------
+	// allocation in proportion to the input, for Unmarshal: every 4-byte (protocol 2: 2-byte) window of small
+	// well-formed collection values overwritten with 10^6 and 4*10^6 (65535); the list / set / map decoders
+	// must not size anything by such a field before they have seen that many elements
+	umSafe := true
+	if o.Only < 0 {
+		ar := hlib.NewRng(o.Seed + 1977)
+		ag := &c04lib.Gen{R: ar}
+		done, worst := 0, 0.0
+		for tries := 0; tries < 4000 && done < 30*o.Scale; tries++ {
+			proto := int(ar.Pick(2, 3, 4, 5))
+			t := ag.ValueType(2)
+			if t.Kind != c04lib.KList && t.Kind != c04lib.KSet && t.Kind != c04lib.KMap {
+				continue
+			}
+			data := ag.Value(proto, t)
+			if data == nil || len(data) > 60 {
+				continue
+			}
+			done++
+			ti := c04lib.TypeInfoOf(proto, t)
+			w, vals := 4, []int64{1000000, 4000000}
+			if proto == 2 {
+				w, vals = 2, []int64{65535}
+			}
+			for off := 0; off+w <= len(data); off++ {
+				for _, v := range vals {
+					c := put(data, off, w, v)
+					alloc := allocDelta(func() { c04lib.UnmarshalOutcome(ti, c) })
+					o.Count("unmarshal-alloc-count-field(monitor-only)")
+					if x := float64(alloc) / float64(len(c)); x > worst {
+						worst = x
+					}
+					if alloc > uint64(64*len(c)+1<<20) {
+						if umSafe {
+							o.Violate(-1, "allocation-out-of-proportion", "", fmt.Sprintf("a %d-byte %s value with %d written at offset %d made Unmarshal allocate %d bytes",
+								len(c), c04lib.CoqTInfo(ti), v, off, alloc), fmt.Sprintf("proto %d %s %x", proto, c04lib.CoqTInfo(ti), c))
+						}
+						umSafe = false
+					}
+				}
+			}
+		}
+		o.Extra["unmarshal_alloc_worst_bytes_per_input_byte"] = worst
+		if !umSafe {
+			o.Extra["unmarshal_huge_sizes_not_run"] = "Unmarshal sized an allocation by a count field; collection values announcing more than 2^16 elements are not run in-process by the streams below"
+		}
+	}
 	tryUnmarshal := func(kind string, proto int, t *c04lib.SType, data []byte, emit bool) {
 		ti := c04lib.TypeInfoOf(proto, t)
-		// collection sizes above 2^16 would be allocated before the elements are looked at: not run in-process
-		if sizeTooBig(proto, t, data, data == nil) {
+		// only when the sweep above found Unmarshal allocating by a count field: sizes above 2^16 are not run in-process
+		if !umSafe && sizeTooBig(proto, t, data, data == nil) {
 			o.Count("skipped-huge-collection-size")
 			return
 		}
@@ -626,7 +675,9 @@ func main() {
 	}
 
 	o.Extra["panics_by_site"] = h.panics
-	o.Finish("From GocqlV Require Import Lib.Base C04.Model C04.Spec C04.Corr C05.Model C05.Corr.", "C05.Corr.case", "C05.Corr.run")
+	// ---- the driver's own goroutines: handshake and heartbeat against a scripted node, in child processes ------
+	connScenarios(o)
+	o.Finish("From GocqlV Require Import Lib.Base C04.Model C04.Spec C04.Corr C05.Model C05.Conn C05.Corr.", "C05.Corr.case", "C05.Corr.run")
 }
 
 var _ = gocql.ErrNotFound
